@@ -248,6 +248,38 @@ theorem deepProps_enc (name : Str) (hn : '[' ∉ name) :
     simp only [deepEnc, deepPairs, List.map_cons] at ih ⊢
     simp only [deepProps, deepKey_single name k hn hk, ih]
 
+theorem wellFormedKey_single (name k : Str) (hn : '[' ∉ name) (hk : ']' ∉ k) :
+    wellFormedKey name (name ++ '[' :: (k ++ [']'])) = true := by
+  simp [wellFormedKey, deepKey_single name k hn hk, brackets]
+
+/-- the specification's filter keeps every key of an encoded deepObject request -/
+theorem strictReq_deepEnc (name : Str) (hn : '[' ∉ name) (kvs : List (Str × Str)) (hk : ∀ kv ∈ kvs, ']' ∉ kv.1) :
+    strictReq name { query := deepEnc name kvs } = { query := deepEnc name kvs } := by
+  simp only [strictReq]
+  congr 1
+  apply List.filter_eq_self.mpr
+  intro kv hkv
+  simp only [deepEnc, List.mem_map] at hkv
+  obtain ⟨x, hx, rfl⟩ := hkv
+  exact wellFormedKey_single name x.1 hn (hk x hx)
+
+theorem deepReq_deepEnc (fl : Flavour) (name : Str) (hn : '[' ∉ name) (kvs : List (Str × Str)) (hk : ∀ kv ∈ kvs, ']' ∉ kv.1) :
+    fl.deepReq name { query := deepEnc name kvs } = { query := deepEnc name kvs } := by
+  unfold Flavour.deepReq
+  split
+  · exact strictReq_deepEnc name hn kvs hk
+  · rfl
+
+/-- without junk keys the specification sees the request as it is -/
+theorem strictReq_of_noJunk (name : Str) (r : Req) (h : r.query.any (fun kv => !wellFormedKey name kv.1) = false) :
+    strictReq name r = r := by
+  have : r.query.filter (fun kv => wellFormedKey name kv.1) = r.query := by
+    apply List.filter_eq_self.mpr
+    intro kv hkv
+    have := List.any_eq_false.mp h kv hkv
+    simpa using this
+  simp [strictReq, this]
+
 theorem deepUnder_pairs (p : Str) (kvs : List (Str × Str)) : deepUnder p (deepPairs kvs) = [] := by
   induction kvs with
   | nil => rfl
@@ -300,8 +332,6 @@ theorem deepScalar_pairs (k : Str) (kvs : List (Str × Str)) :
     · have hne : (k == k') = false := by simpa using hk
       have hne' : ¬ k' = k := fun e => hk e.symm
       simp [deepScalar, List.lookup, hne, hne', ih]
-
-def liftP (res : List (Str × PV)) : List (Str × DV) := res.map (fun kv => (kv.1, DV.p kv.2))
 
 theorem dvPrims_liftP (res : List (Str × PV)) : dvPrims (liftP res) = res := by
   induction res with
